@@ -71,6 +71,7 @@ def plan(tier):
                    "after_block_slot": "all menu items for block length <= 3; {alu16, alu32, svc} after a 4-instruction block"},
         "exhaustive": True,
         "assumptions": ["the menu instructions' own semantics are those of the C01/C02/C12 models"],
+        "security_state": "Secure for NZCV values with V = 0, Non-secure (SCR.AW = SCR.FW = 0) for those with V = 1",
     }
 
 
@@ -144,6 +145,9 @@ def programs(res, fc, mask, per, tier="quick"):
         for nzcv in (NZCV8 if tier == "quick" else range(16)):
             regs = list(base)
             regs[ix["cpsr"]] = 0x000001F3 | (nzcv << 28)
+            # Non-secure state (SCR.NS = 1, SCR.AW = SCR.FW = 0) for the flag values with V set, Secure for the others:
+            # the exception entries inside the block then also run through their Non-secure mask rules
+            regs[ix["scr"]] = nzcv & 1
             pre = tuple(regs)
             plan.restore((pre, mem0))
             addr = CODE
